@@ -158,6 +158,27 @@ pub fn run(ctx: &Ctx) -> Report {
     creds.push((parts[0].to_string(), "///".to_string())); // 5 empty-ish parts
     creds.push((parts[0].to_string(), "////".to_string()));
     creds.push((parts[0].to_string(), String::new()));
+    // the slash between two adjacent elements moved by one or two characters either way (each element wrong, their
+    // concatenation unchanged), and two adjacent elements merged / one split
+    {
+        let els = [d8, "us-east-1", "service", "aws4_request"];
+        for k in 0..3 {
+            for shift in [-2i32, -1, 1, 2] {
+                let (a, b) = (els[k], els[k + 1]);
+                let cut = (a.len() as i32 + shift) as usize;
+                let joined = format!("{}{}", a, b);
+                if cut == 0 || cut >= joined.len() {
+                    continue;
+                }
+                let mut v: Vec<String> = els.iter().map(|x| x.to_string()).collect();
+                v[k] = joined[..cut].to_string();
+                v[k + 1] = joined[cut..].to_string();
+                creds.push((parts[0].to_string(), v.join("/")));
+            }
+        }
+        creds.push((format!("{}{}", parts[0], &d8[..1]), format!("{}/us-east-1/service/aws4_request", &d8[1..])));
+        creds.push((parts[0][..parts[0].len() - 1].to_string(), format!("{}{}/us-east-1/service/aws4_request", &parts[0][parts[0].len() - 1..], d8)));
+    }
     // long credentials: the access key padded so that the correct five-part text ends exactly at, one before or
     // one after a power-of-two length, followed by nothing, a sixth part or a longer terminator (what is checked
     // and what is signed must be the same text however long it is)
@@ -446,7 +467,7 @@ pub fn run(ctx: &Ctx) -> Report {
     Report {
         stats: st,
         rule: format!(
-            "(1) five-part credentials: 12 date variants (exact, -1 day, +1 day, 7 digits, trailing space, extended, empty, written-local date, and the numerically equal spellings +D, 0D, 00D, D.0) x 12 near-misses each of region, service and terminator (exact, prefix, suffix, x+v, v+x, UPPER, empty, look-alike, trailing blank, leading blank, lower, case-swapped) x {} server (region, service) pairs (incl. a mixed-case one, empty strings, non-ASCII and 300-character values) x {} request instants (incl. 23:59:59Z, 00:00:00Z and offsets whose UTC date differs from the written date) x signing mode A (correctly signed under the credential's own scope; provider returns that key unconditionally) / B (signed under the server's scope) x carrier; (1b) timestamps ten minutes (or thirty seconds) from local midnight written with 12 offsets of either sign from 00:01 to 14:00 (sub-hour ones included), basic and extended, so that the UTC date differs from the written date: the credential dated with the UTC date is accepted, the one dated with the written date refused; (2) credentials of 1..8 parts, with leading/trailing/double slashes, empty access key and no slash at all, and credentials whose correct five-part text ends exactly at / next to lengths 64 .. 65536 followed by a sixth part or a longer terminator; (3) every sequence of 1..3 validations on one thread over 50 symbols (5 server configurations, one differing from another in letter case only, x credential scoped for any of the 5 x carrier): each judged as if it were alone; (4) 9 access keys (case variant, inner / trailing blank, literal percent signs, non-ASCII, one character) x 10 session tokens (none, reserved characters, literal percent signs, inner blanks, commas, non-ASCII, 4 kB, case variant, trailing blank) x carrier x token signed or not: the provider is asked for exactly that access key and token; (4b) 6 access keys (incl. the AKIA / ASIA / AROA / AIDA prefixes of real key ids) x 3 tokens (none, a stale one, empty) x a key store indexed by the exact (key, token) pair holding each of the 16 subsets of (key alone, key with this token, key with another token, another key with this token) x every error it can answer an unknown pair with (all SignatureError kinds, an io::Error, a string) x 8 identities attached to its answers x carrier: refused with that error unless the store holds the request's own pair, and the store is asked exactly once; (4c) the server configured for each of 62 AWS region codes / pseudo-regions (and each of 70 service signing names) x the credential scoped for each of them x carrier. Oracle: reference verifier (Ok iff all five parts right; arity => IncompleteSignature/400; other mismatch => SignatureDoesNotMatch/403 also in mode A; provider asked iff scope fully correct, with (access key, token, UTC date, server region, server service)). states = distinct (stage, kind, provider ask)",
+            "(1) five-part credentials: 12 date variants (exact, -1 day, +1 day, 7 digits, trailing space, extended, empty, written-local date, and the numerically equal spellings +D, 0D, 00D, D.0) x 12 near-misses each of region, service and terminator (exact, prefix, suffix, x+v, v+x, UPPER, empty, look-alike, trailing blank, leading blank, lower, case-swapped) x {} server (region, service) pairs (incl. a mixed-case one, empty strings, non-ASCII and 300-character values) x {} request instants (incl. 23:59:59Z, 00:00:00Z and offsets whose UTC date differs from the written date) x signing mode A (correctly signed under the credential's own scope; provider returns that key unconditionally) / B (signed under the server's scope) x carrier; (1b) timestamps ten minutes (or thirty seconds) from local midnight written with 12 offsets of either sign from 00:01 to 14:00 (sub-hour ones included), basic and extended, so that the UTC date differs from the written date: the credential dated with the UTC date is accepted, the one dated with the written date refused; (2) credentials of 1..8 parts, with leading/trailing/double slashes, empty access key and no slash at all, five-part credentials in which the slash between two adjacent elements is moved by one or two characters (their concatenation unchanged), and credentials whose correct five-part text ends exactly at / next to lengths 64 .. 65536 followed by a sixth part or a longer terminator; (3) every sequence of 1..3 validations on one thread over 50 symbols (5 server configurations, one differing from another in letter case only, x credential scoped for any of the 5 x carrier): each judged as if it were alone; (4) 9 access keys (case variant, inner / trailing blank, literal percent signs, non-ASCII, one character) x 10 session tokens (none, reserved characters, literal percent signs, inner blanks, commas, non-ASCII, 4 kB, case variant, trailing blank) x carrier x token signed or not: the provider is asked for exactly that access key and token; (4b) 6 access keys (incl. the AKIA / ASIA / AROA / AIDA prefixes of real key ids) x 3 tokens (none, a stale one, empty) x a key store indexed by the exact (key, token) pair holding each of the 16 subsets of (key alone, key with this token, key with another token, another key with this token) x every error it can answer an unknown pair with (all SignatureError kinds, an io::Error, a string) x 8 identities attached to its answers x carrier: refused with that error unless the store holds the request's own pair, and the store is asked exactly once; (4c) the server configured for each of 62 AWS region codes / pseudo-regions (and each of 70 service signing names) x the credential scoped for each of them x carrier. Oracle: reference verifier (Ok iff all five parts right; arity => IncompleteSignature/400; other mismatch => SignatureDoesNotMatch/403 also in mode A; provider asked iff scope fully correct, with (access key, token, UTC date, server region, server service)). states = distinct (stage, kind, provider ask)",
             n_serv, n_inst
         ),
         bounds: json!({"servers": n_serv, "instants": n_inst, "cases": total1 + total2}),
